@@ -8,8 +8,10 @@ import (
 	"fmt"
 	"testing"
 
+	"github.com/formancehq/ledger/internal/api/backend"
 	"github.com/formancehq/ledger/verifharness/enginesim"
 	"github.com/formancehq/ledger/verifharness/evid"
+	"github.com/formancehq/ledger/verifharness/httpsim"
 	"pgregory.net/rapid"
 )
 
@@ -92,7 +94,7 @@ func firstDiff(a, b []string) string {
 
 func TestC14(t *testing.T) {
 	c := evid.New("C14")
-	c.Rule = "sequential histories of 3-10 real writes of all kinds with previews (dry run) of all kinds inserted at generated positions (succeeding and failing, with and without idempotency key), process restarts at generated positions. Each case runs H1 (as generated), H0 (previews removed) and H2_k (preview k made real). Oracle: persisted log, responses of real writes and publications of H1 equal those of H0 byte for byte; the preview's answer in H1 equals its real twin's answer in H2_k. A second family (50%) lets previews race real writes (generated schedules) and checks the no-effect clauses as invariants of the history: transaction ids dense in log order, every entry produced by a real request, nothing published for a preview, and the guarantees of the real writes around it intact (unique references, idempotency keys, no overdraft); a quarter of its rounds are bursts of creates sharing one reference, a third of them previews. Non-trivial = a successful preview followed by at least one real transaction (sequential family) or a preview overlapping a real write (concurrent family); distinct by operations (and gate trace)."
+	c.Rule = "sequential histories of 3-10 real writes of all kinds with previews (dry run) of all kinds inserted at generated positions (succeeding and failing, with and without idempotency key), process restarts at generated positions. Each case runs H1 (as generated), H0 (previews removed) and H2_k (preview k made real). Oracle: persisted log, responses of real writes and publications of H1 equal those of H0 byte for byte; the preview's answer in H1 equals its real twin's answer in H2_k. A second family (50%) lets previews race real writes (generated schedules) and checks the no-effect clauses as invariants of the history: transaction ids dense in log order, every entry produced by a real request, nothing published for a preview, and the guarantees of the real writes around it intact (unique references, idempotency keys, no overdraft); a quarter of its rounds are bursts of creates sharing one reference, a third of them previews. A third family (1 in 12) sends one write request of either API version with the preview flag in each spelling the handlers accept (true in any case, 1, yes in any case) through the real routers over a real Commander: no log entry may appear. Non-trivial = a successful preview followed by at least one real transaction (sequential family) or a preview overlapping a real write (concurrent family); distinct by operations (and gate trace)."
 	c.Assumptions = []string{engineAssumption, "the bubble's fake clock stands still, so timestamps (and therefore hashes) are equal across the runs; cases where it moved are discarded and counted"}
 	cfg := enginesim.DefaultConfig()
 	cfg.Sequential = true
@@ -107,6 +109,10 @@ func TestC14(t *testing.T) {
 	ccfg.SameIKIdentical = true
 	ccfg.RefBurstPct = 35
 	runProp(t, c, func(rt *rapid.T) {
+		if rapid.IntRange(0, 11).Draw(rt, "httpFlagFamily") == 0 {
+			c14HTTPFlag(rt, c)
+			return
+		}
 		if rapid.IntRange(0, 1).Draw(rt, "concurrentFamily") == 0 {
 			// previews racing real writes: byte equality with a preview-free twin is not defined under
 			// concurrency, so the "no effect" clauses are checked as invariants of the history
@@ -231,4 +237,55 @@ func TestC14(t *testing.T) {
 			}
 		}
 	})
+}
+
+// c14HTTPFlag: the preview flag as a client spells it. The handlers accept `yes`, `true` (any case) and
+// `1`; a request carrying any of those spellings, on any write route of either API version, must leave
+// the log as it was.
+func c14HTTPFlag(rt *rapid.T, c *evid.Collector) {
+	store, commander, stop := enginesim.Standalone()
+	defer stop()
+	be := httpsim.NewFakeBackend()
+	be.Override = func(name string) backend.Ledger {
+		return &httpsim.EngineLedger{FakeLedger: &httpsim.FakeLedger{Name: name}, Commander: commander}
+	}
+	router := httpsim.NewRouter(be, false)
+	hdr := map[string]string{"Content-Type": "application/json"}
+	txBody := `{"postings":[{"source":"world","destination":"a","asset":"USD","amount":5}],"metadata":{"k":"v"}}`
+	// something to revert and to annotate
+	if rec := httpsim.Serve(router, "POST", "/api/ledger/v2/l1/transactions", hdr, txBody); rec.Code >= 300 {
+		harnessError(rt, "cannot create the initial transaction: %d %s", rec.Code, clip(rec.Body.String()))
+	}
+	before := len(store.Entries)
+	api := rapid.SampledFrom([]string{"v2", "v1"}).Draw(rt, "flagAPI")
+	flag, prefix := "dryRun", "/api/ledger/v2/l1"
+	if api == "v1" {
+		flag, prefix = "preview", "/api/ledger/l1"
+	}
+	spelling := rapid.SampledFrom([]string{"true", "TRUE", "True", "tRuE", "1", "yes", "YES", "Yes"}).Draw(rt, "flagSpelling")
+	type route struct{ method, path, body string }
+	routes := []route{
+		{"POST", "/transactions", txBody},
+		{"POST", "/transactions", `{"script":{"plain":"send [USD 1] (\n source = @world\n destination = @b\n)","vars":{}}}`},
+		{"POST", "/transactions/0/revert", ``},
+		{"POST", "/transactions/0/metadata", `{"k2":"v2"}`},
+		{"POST", "/accounts/a/metadata", `{"k2":"v2"}`},
+		{"DELETE", "/accounts/a/metadata/k", ``},
+	}
+	if api == "v2" {
+		routes = append(routes, route{"DELETE", "/transactions/0/metadata/k", ``})
+	}
+	ro := rapid.SampledFrom(routes).Draw(rt, "flagRoute")
+	target := prefix + ro.path + "?" + flag + "=" + spelling
+	rec := httpsim.Serve(router, ro.method, target, hdr, ro.body)
+	after := len(store.Entries)
+	c.Case(evid.Key("http-flag", api, ro.method, ro.path, spelling), true, []string{"family:http-flag", "flag:" + flag + "=" + spelling}, func() any {
+		return map[string]any{"family": "http-flag", "request": ro.method + " " + target, "status": rec.Code}
+	})
+	if after != before {
+		if !c.IsKnown("C14/http-flag/entry-written") {
+			rt.Logf("%s %s body=%s -> %d %s", ro.method, target, ro.body, rec.Code, clip(rec.Body.String()))
+			violation(rt, c, "C14/http-flag/entry-written", "%s %s asked for a preview (%s=%s) and %d log entr(y/ies) were written", ro.method, target, flag, spelling, after-before)
+		}
+	}
 }
